@@ -4,8 +4,9 @@ CONSTANTS
   Splits <- MCSplits2
   Width <- MCWidth2
   Limits = {0, 1, 2, 3}
-  Markers <- MCMarkersAll
+  Markers <- MCMarkersBetween
   Export = FALSE
+  CallerReverses = FALSE
 INVARIANTS TypeOK ColumnsDuring RowsIdxUnique CountBound MarkerIsKey
-  FinalAligned FinalUnique FinalOrdered FinalWindow FinalLimit FinalFirst FinalHasMore
+  FinalAligned FinalUnique FinalOrdered FinalWindow FinalLimit FinalFirst FinalHasMore FinalIsSpecOut
 CHECK_DEADLOCK FALSE
